@@ -44,6 +44,26 @@ func ruleR08h(c *Ctx, rule string) {
 		rMon
 		same
 	)
+	// role of a parse-tree node: 1 = the left operand (GetLhs), 2 = the right operand (GetRhs)
+	roleOfNode := func(a ssa.Value) int {
+		for _, ar := range roots(a, nil) {
+			if ac, ok := ar.(*ssa.Call); ok {
+				n := ""
+				if ac.Call.IsInvoke() {
+					n = ac.Call.Method.Name()
+				} else if g := staticCallee(ac); g != nil {
+					n = origName(g)
+				}
+				switch {
+				case strings.HasSuffix(n, "GetLhs"):
+					return 1
+				case strings.HasSuffix(n, "GetRhs"):
+					return 2
+				}
+			}
+		}
+		return 0
+	}
 	// role of a static type value: 1 = of the left operand, 2 = of the right operand
 	roleOf := func(v ssa.Value) int {
 		for _, r := range roots(v, nil) {
@@ -128,6 +148,30 @@ func ruleR08h(c *Ctx, rule string) {
 				for _, f := range pc.edgeFacts(from, si) {
 					if !f.Eq {
 						continue
+					}
+					// the nil-error edge of a typed-visit helper: the type of the visited operand equals `expected`
+					if isNilConst(f.Y) {
+						if call, tv := c.typedVisitOfErr(f.X); tv != nil && tv.ok && tv.exprArg < len(call.Call.Args) && tv.expected < len(call.Call.Args) {
+							role := roleOfNode(call.Call.Args[tv.exprArg])
+							exp := call.Call.Args[tv.expected]
+							if k, isC := exp.(*ssa.Const); isC {
+								if v, ok := constInt64Of(k); ok {
+									switch {
+									case role == 1 && v == num:
+										s |= lNum
+									case role == 2 && v == num:
+										s |= rNum
+									case role == 1 && v == mon:
+										s |= lMon
+									case role == 2 && v == mon:
+										s |= rMon
+									}
+								}
+							} else if r2 := roleOf(exp); role != 0 && r2 != 0 && r2 != role {
+								s |= same
+							}
+							continue
+						}
 					}
 					x, y := f.X, f.Y
 					if _, ok := x.(*ssa.Const); ok {
